@@ -107,6 +107,20 @@ theorem jpegls_header_fields_roundtrip (w h p near : Int) (c : Nat) (scan : List
       r.scanEnd + 2 = bytes.length ∧ r.hdrEnd + scan.length = r.scanEnd ∧ bytes.drop r.scanEnd = [0xFF, 0xD9] :=
   jpegls_frame w h p near c scan hw hh hc hp hnear hs hne
 
+/-- (6') plug for C03: `golomb_writer_stuffed` concludes `Golomb.Stuffed out ∧ ∀ b ∈ out, b < 256`, and
+    `Golomb.Stuffed` has exactly the shape of `PairStuffed`; together with "the scan does not end on 0xFF"
+    (NOT proved by C03 — it needs the freeBitCount bookkeeping of `GolombWriter.Flush`; observed on every
+    real stream by the search) that is the `NoMarkerLS` hypothesis of (6). -/
+theorem jpegls_scan_predicate_from_pairwise_stuffing (out : List Nat) (hs : PairStuffed out)
+    (hb : ∀ b ∈ out, b < 256) (hl : out.getLast? ≠ some 255) : NoMarkerLS out = true :=
+  noMarkerLS_of_pairStuffed out hs hb hl
+
+/-- non-vacuity of (6'), and the last hypothesis is necessary: a scan ending on 0xFF is pairwise stuffed
+    but would merge with EOI into `FF FF D9` -/
+example : PairStuffed [0x12, 0xFF, 0x7F, 0x80] ∧ NoMarkerLS [0x12, 0xFF, 0x7F, 0x80] = true ∧
+    PairStuffed [0x12, 0xFF] ∧ NoMarkerLS [0x12, 0xFF] = false := by
+  refine ⟨by simp [PairStuffed], by decide, by simp [PairStuffed], by decide⟩
+
 /-- (7) baseline (and 8-bit "extended", which is written by the baseline encoder) with the scan abstracted -/
 theorem baseline_header_fields_roundtrip (w h : Int) (c : Nat) (t : BaseTables) (scan : List Nat)
     (hw : 0 < w ∧ w ≤ 65535) (hh : 0 < h ∧ h ≤ 65535) (hc : c = 1 ∨ c = 3) (ht : BaseOk c t)
